@@ -2,14 +2,15 @@
 # tools/matrix_wt.sh [lanes] [own|all]: every seeded change x the quick check of its own property (own, default;
 # about half an hour) or x every quick check (all; several hours), on scratch worktrees (tools/try_wt.sh),
 # N lanes in parallel; writes seeded/MATRIX.json. Sanitizer lanes are skipped (VERIF_NO_LANES=1) except
-# for seeds named S* which exist to exercise them. Scratch trees are kept between runs only while running.
+# for seeds named S* which exist to exercise them. SEEDS_FILTER=<regex> restricts the seeds, MATRIX_MERGE=1 merges
+# the result into the existing seeded/MATRIX.json instead of replacing it. Scratch trees are kept between runs only while running.
 ROOT="$(cd "$(dirname "$0")/.." && pwd)"; export VERIF_SRC="$ROOT"
 cd "$ROOT"
 N=${1:-4}
 MODE=${2:-own}
 ALL="C01 C02 C03 C04 C05 C06 C07 C08 C09 C10 C11 C12 C13 C14 C15 C16 C17 C18 C19 C20"
 rm -rf /tmp/mxres; mkdir -p /tmp/mxres
-seeds=($(ls seeded | grep -v MATRIX))
+seeds=($(ls seeded | grep -v MATRIX | grep -E "${SEEDS_FILTER:-.}"))
 for k in $(seq 0 $((N-1))); do
   (
     for i in "${!seeds[@]}"; do
@@ -39,6 +40,9 @@ for f in sorted(glob.glob('/tmp/mxres/*.txt')):
     meta=json.load(open(os.path.join(os.environ['VERIF_SRC'],'seeded',s,'meta.json')))
     m[s]={'property':meta.get('property'),'caught_by':caught,'inconclusive':inc,'first_signature':sig,'summary':meta.get('summary','')[:300]}
 import sys
+mp=os.path.join(os.environ['VERIF_SRC'],'seeded','MATRIX.json')
+if os.environ.get('MATRIX_MERGE') and os.path.exists(mp):
+    old=json.load(open(mp))['seeds']; old.update(m); m=old
 json.dump({'mode': os.environ.get('MATRIX_MODE','own'), 'seeds': m},open(os.path.join(os.environ['VERIF_SRC'],'seeded','MATRIX.json'),'w'),indent=1)
 missed=[s for s,v in m.items() if v['property'] not in v['caught_by']]
 print('seeds',len(m),'not caught by own check:',missed)
